@@ -14,6 +14,25 @@ let model_lex src =
   | None -> "OUTOFFUEL"
   | Some ts -> "LEX\t" ^ String.concat ";" (List.map show_token ts)
 
+(* lexc: the token list and, per byte offset, the model of Position.Contains for every token *)
+let cursor_rows (src : string) (ts : E.token list) : string =
+  let n = String.length src in
+  let b = Buffer.create 256 in
+  let line = ref 0 and col = ref 0 in
+  for k = 0 to n do
+    if k > 0 then Buffer.add_char b ',';
+    List.iter
+      (fun t -> Buffer.add_char b (if E.contains t (nat_of_int !line) (nat_of_int !col) then '1' else '0'))
+      ts;
+    if k < n then if src.[k] = '\n' then (incr line; col := 0) else incr col
+  done;
+  Buffer.contents b
+
+let model_lexc src =
+  match E.lex_all (bytes_of_string src) with
+  | None -> "OUTOFFUEL"
+  | Some ts -> "LEXC\t" ^ String.concat ";" (List.map show_token ts) ^ "\t" ^ cursor_rows src ts
+
 (* ---------- parse: the AST dump of harness/astdump.go *)
 
 let ni n = string_of_int (int_of_nat n)
@@ -285,6 +304,7 @@ let model_tree (fsx : string) (opsx : string) : string =
 let model_obs (f : string list) : string =
   match f with
   | _ :: "lex" :: src :: _ -> model_lex (unhex src)
+  | _ :: "lexc" :: src :: _ -> model_lexc (unhex src)
   | _ :: "parse" :: src :: _ -> model_parse (unhex src)
   | [ _; "render"; src ] -> model_render (unhex src) ""
   | _ :: "render" :: src :: data :: _ -> model_render (unhex src) (unhex data)
